@@ -2337,6 +2337,25 @@ theorem enable_sound (x : Ctx) (hall : ∀ m, m < x.nodes.size → Holds x.E x.n
             show _ = cmp .gt (nodeVal x.nodes x.env m) 0
             rw [nodeVal_lnot x.nodes x.env m hm a ty hkm ha, gt_boolI]
             simp [cmp, Operand.val, Ctx.av]
+          | gate op a b w ty =>
+            rw [hkm] at h
+            cases w with
+            | node q => simp at h
+            | int k =>
+              simp only [Bool.and_eq_true, Bool.not_eq_true', beq_iff_eq] at h
+              obtain ⟨⟨⟨⟨⟨⟨⟨hk0, ha⟩, hb⟩, hop⟩, hplain⟩, hue⟩, h1⟩, h2⟩ := h
+              rw [cond_eval_plain cd _ _ hplain hue, matchOperand_sound x i cd.first a m ha hallm h1,
+                matchOperand_sound x i cd.second b m hb hallm h2, hop]
+              show _ = cmp .gt (nodeVal x.nodes x.env m) 0
+              rw [nodeVal_gate x.nodes x.env m hm op a b (.int k) ty hkm ha hb rfl]
+              have hkv : argVal x.nodes (evalNodes x.nodes x.env) (.int k) = k := rfl
+              rw [hkv]
+              have hc : ∀ cb : Bool, cb = cmp .gt (if cb = true then k else 0) 0 := by
+                intro cb
+                cases cb
+                · simp [cmp]
+                · simpa using hk0.symm
+              exact hc _
           | _ => rw [hkm] at h; simp at h
   | _ => rw [hk] at h; simp at h
 
